@@ -389,3 +389,34 @@ package pegnet
 //@   pure
 //@   ensures err == nil ==> result != nil && fresh(result) && (forall t fat2.PTicker :: validTicker(t) ==> dom(result)[t] && vals(result)[t] == Lbal[*adr][t])
 //@   ensures !isRejectErr(err)
+//@
+//@ // ---- balance snapshots (C14) -----------------------------------------------------------------------
+//@ //   LsnapCur / LsnapPast: the two snapshot tables (absent row = not in LsnapInCur / LsnapInPast)
+//@ ghost var LsnapCur map[factom.FAAddress]map[int]int
+//@ ghost var LsnapPast map[factom.FAAddress]map[int]int
+//@ ghost var LsnapInCur set[factom.FAAddress]
+//@ ghost var LsnapInPast set[factom.FAAddress]
+//@
+//@ // past := current; current := the live balances (as seen through the block's transaction)
+//@ func (*Pegnet).SnapshotCurrent
+//@   trusted
+//@   nullable tx
+//@   modifies LsnapCur, LsnapPast, LsnapInCur, LsnapInPast
+//@   ensures !isRejectErr(result)
+//@   ensures result == nil ==> LsnapPast == old(LsnapCur) && LsnapInPast == old(LsnapInCur) && LsnapCur == Lbal
+//@
+//@ // inner join of the two snapshots; per asset the smaller of the two balances
+//@ func (Pegnet).SelectSnapshotBalances
+//@   trusted
+//@   pure
+//@   nullable tx
+//@   ensures !isRejectErr(result1)
+//@   ensures result1 == nil ==> (forall k int :: 0 <= k && k < len(result0) ==> result0[k].Address != nil && len(result0[k].Balances) == fat2.PTickerMax + 1 && LsnapInCur[*result0[k].Address] && LsnapInPast[*result0[k].Address])
+//@   ensures result1 == nil ==> (forall k int, t int :: 0 <= k && k < len(result0) && validTicker(t) ==> result0[k].Balances[t] == min(LsnapCur[*result0[k].Address][t], LsnapPast[*result0[k].Address][t]) && result0[k].Balances[t] <= MaxInt64)
+//@   ensures result1 == nil ==> (forall j int, k int :: 0 <= j && j < k && k < len(result0) ==> *result0[j].Address != *result0[k].Address)
+//@   ensures result1 == nil ==> (len(result0) == 0 || fresh(result0)) && (forall k int :: 0 <= k && k < len(result0) ==> fresh(result0[k].Balances) && fresh(result0[k].Address))
+//@
+//@ func (*Pegnet).InsertStakingCoinbase
+//@   trusted
+//@   pure
+//@   ensures !isRejectErr(result)
